@@ -1,4 +1,4 @@
-"""C01 T-run correspondence: the Lean wiring model (Model/Wiring.lean, driver C01) versus the real
+"""C01 T-run correspondence: the Lean wiring model (Model/DFWiring.lean, driver C01) versus the real
 `DFContainer.__getitem__/__setitem__` of /repo on the same generated place trees and scripts.
 
 A case is (type tree, ret flag, script).  Type tree: ("L", c, d) leaf with Guppy's copyable /
